@@ -52,8 +52,9 @@ theorem axisAngle_rotation (a : V3 K) (s c : K) (h1 : s * s + c * c = 1) (h2 : a
 
 section transc
 variable {F : Type} [Field F] [Transc F]
-/-- `from_angle_x/y/z` are `from_axis_angle` about the unit axes; Matrix4 is the embedding of
-Matrix3; Basis3 wraps Matrix3 -/
+/-- `Matrix3::from_angle_x/y/z` are `Matrix3::from_axis_angle` about the unit axes (Matrix3 only in this theorem; Matrix4 as the
+embedding of Matrix3 is `m4_eq_embed` just below, `Matrix4::from_angle_*` about the unit axes is `m4_fromAngle_eq_axisAngle` and
+the `Basis3` wrappers are `basis3_fromAngle_eq_axisAngle`, both in `Props/C06c.lean`) -/
 theorem fromAngle_eq_axisAngle (θ : F) :
     M3.fromAngleX θ = M3.fromAxisAngle V3.unitX θ ∧ M3.fromAngleY θ = M3.fromAxisAngle V3.unitY θ ∧
     M3.fromAngleZ θ = M3.fromAxisAngle V3.unitZ θ := by
@@ -122,7 +123,8 @@ theorem quat_axisAngle_real (a v : V3 ℝ) (θ : ℝ) (ha : a.magnitude2 = 1) :
     rw [Real.sin_two_mul]; ring
   rw [hc, hs]
   simpa [Quat.fromAxisAngle] using h
-/-- angles add under composition about a common axis (Matrix3 / Basis3; Matrix2 / Basis2) -/
+/-- angles add under composition about a common unit axis (Matrix3 only in this theorem; Matrix2 is the third conjunct of
+`m2_fromAngle_real` below; Basis3 / Basis2 are `basis3_axisAngle_add_real`, `basis2_fromAngle_add_real` in `Props/C06c.lean`) -/
 theorem axisAngle_add_real (a : V3 ℝ) (θ₁ θ₂ : ℝ) (ha : a.magnitude2 = 1) :
     M3.fromAxisAngle a θ₁ * M3.fromAxisAngle a θ₂ = M3.fromAxisAngle a (θ₁ + θ₂) := by
   show M3.axisAngleSC a _ _ * M3.axisAngleSC a _ _ = M3.axisAngleSC a _ _
